@@ -65,6 +65,7 @@ private:
     {
         using std::sqrt;
         using std::norm;
+        using std::abs;
 
         // The eigenvalues we get from the iteration is
         //     nu = 0.5 * (1 / (lambda - sigma) + 1 / (lambda - conj(sigma)))
@@ -111,16 +112,29 @@ private:
 
             // Test roots
             Scalar err1 = Scalar(0), err2 = Scalar(0);
+            // (v^H * OPv) and (v^H * v), for the estimate of 1 / (lambdaj - r) used below
+            Complex vOPv = Complex(0);
+            Scalar vv = Scalar(0);
             for (int k = 0; k < m_n; k++)
             {
-                const Complex rhs1 = Complex(v_real[k], v_imag[k]) / (root1 - shift);
-                const Complex rhs2 = Complex(v_real[k], v_imag[k]) / (root2 - shift);
+                const Complex vk = Complex(v_real[k], v_imag[k]);
+                const Complex rhs1 = vk / (root1 - shift);
+                const Complex rhs2 = vk / (root2 - shift);
                 const Complex OPv = Complex(OPv_real[k], OPv_imag[k]);
                 err1 += norm(OPv - rhs1);
                 err2 += norm(OPv - rhs2);
+                vOPv += Eigen::numext::conj(vk) * OPv;
+                vv += norm(vk);
             }
 
-            const Complex lambdaj = (err1 < err2) ? root1 : root2;
+            Complex lambdaj = (err1 < err2) ? root1 : root2;
+            // When the two roots (nearly) coincide -- an eigenvalue at distance |sigmai| from sigmar --
+            // the square root above has lost up to half of the digits of nu. The identity
+            // inv(A - r * I) * vj = vj / (lambdaj - r) gives lambdaj without a square root
+            if (abs(disc) < sqrt(sqrt(Eigen::NumTraits<Scalar>::epsilon())) && vOPv != Complex(0))
+            {
+                lambdaj = shift + vv / vOPv;
+            }
             m_ritz_val[i] = lambdaj;
 
             // A complex Ritz value is followed by its exact conjugate, and a real one
